@@ -32,7 +32,7 @@ from fractions import Fraction
 from multiprocessing import Pool
 
 from .. import tlc, upj, gen
-from ..common import MachineryError, ImplTimeout, call_limited
+from ..common import MachineryError, ImplTimeout, call_limited, time_limit
 
 ENUM_CFG = "INIT Init\nNEXT Next\n"
 JUDGE_CFG = "SPECIFICATION Spec\nINVARIANT Judge\n"
@@ -449,10 +449,13 @@ def transition(src, cls, obj, problem, must=False, env=None, meta=None):
             m["rexc"], m["rsite"], m["rdetail"] = _exc(ex)
             return rec
         try:
-            if cls == "cr":
-                rec["eq"] = bool(obj.problem == back.problem)
-            else:
-                rec["eq"] = bool(obj == back)
+            with time_limit(60):
+                if cls == "cr":
+                    rec["eq"] = bool(obj.problem == back.problem)
+                else:
+                    rec["eq"] = bool(obj == back)
+        except ImplTimeout:
+            m["eq_exc"] = "TIMEOUT"
         except Exception as ex:
             m["eq_exc"] = repr(ex)[:200]
         try:
